@@ -451,6 +451,154 @@ def c14_cleanup_with_pending_calls():
 
 
 
+# ------------------------------------------------------------------------------------------------- open findings (session 4)
+def _raises(fn):
+    try:
+        fn()
+        return False
+    except Exception:
+        return True
+
+
+def c01_match_real_lists_exact():
+    k = _K()
+    return _canon(k('0.3~0.1+0.2')) == ("i", 1) and _canon(k('[0.3]~,0.1+0.2')) == ("i", 0)
+
+
+def c01_floor_big_integer():
+    return _canon(_K()('_9007199254740993')) != ("i", 9007199254740993)
+
+
+def c03_inner_lambda_arity():
+    k = _K()
+    try:
+        return _canon(k('{{x+y}(x;1)}(5)')) != ("i", 6)
+    except Exception:
+        return True
+
+
+def c03_projection_list_argument():
+    k = _K()
+    try:
+        return _canon(k('f::{x,y,z};g::f([1 2];;);g(2;3)')) != _i(1, 2, 2, 3)
+    except Exception:
+        return True
+
+
+def c03_body_is_projection():
+    k = _K()
+    try:
+        return _canon(k('gg::{x-y};ff::{gg(x;)};pp::ff(1);pp(3)')) != ("i", -2)
+    except Exception:
+        return True
+
+
+def c05_int64_overflow():
+    import klongpy.interpreter as I
+    real = I.compile_expr
+    out = []
+    for comp in (True, False):
+        I.compile_expr = real if comp else (lambda ast, klong: None)
+        try:
+            try:
+                out.append(int(_K()('a::10000000000;a*a')))
+            except Exception:
+                out.append("err")
+        finally:
+            I.compile_expr = real
+    return out[0] != out[1]
+
+
+def c09_wrapper_of_projection():
+    k = _K()
+    k('g::{x-y};f::g(10;)')
+    return _canon(k('f(3)')) == ("i", 7) and _raises(lambda: k['f'](3))
+
+
+def c09_arity_call_argument():
+    k = _K()
+    k['p'] = lambda x: x * 10
+    k('h::{p(x+1)}')
+    return _canon(k('h(1)')) == ("i", 20) and _raises(lambda: k['h'](1))
+
+
+def c11_nested_dictionary_literal():
+    from klongpy.core import KGCall
+    k = _K()
+    try:
+        v = k('e:::{[1 :{[2 3]}]};e?1')
+        return not isinstance(v, dict)
+    except Exception:
+        return True
+
+
+def c15_timerc_after_raising_callback():
+    import asyncio
+    k = _K()
+    loop = asyncio.new_event_loop()
+    try:
+        k['.system'] = {'klongloop': loop, 'ioloop': loop}
+        n = {"c": 0}
+
+        def cb():
+            n["c"] += 1
+            if n["c"] >= 2:
+                raise RuntimeError("boom")
+            return 1
+        k['cb'] = cb
+        k('t::{cb()}')
+        loop.set_exception_handler(lambda l, c: None)
+        th = k('th::.timer("t";0;t)')
+        loop.run_until_complete(asyncio.sleep(0.2))
+        r1 = k('.timerc(th)')
+        return n["c"] == 2 and r1 == 1
+    except Exception:
+        return False
+    finally:
+        loop.close()
+
+
+def c16_aliased_key_paths():
+    d = tempfile.mkdtemp(prefix="vtp_")
+    try:
+        k = _K(); k('.py("klongpy.db")'); k('kvs::.kvs("%s")' % d)
+        k('kvs,"a/b",,1'); k('kvs?"a/b"'); k('kvs,"a//b",,2')
+        live = _canon(k('kvs?"a/b"'))
+        k('kvs2::.kvs("%s")' % d)
+        fresh = _canon(k('kvs2?"a/b"'))
+        return live != fresh
+    except Exception:
+        return False
+    finally:
+        shutil.rmtree(d, ignore_errors=True)
+
+
+def c20_ws_encode_numpy_scalar():
+    import numpy as np
+    import klongpy.ws.sys_fn_ws as WS
+    from klongpy.core import KLONG_UNDEFINED
+    bad = 0
+    for v in (np.int64(6), KLONG_UNDEFINED):
+        try:
+            m = WS.encode_message(v)
+            if m is None:
+                bad += 1
+        except Exception:
+            bad += 1
+    return bad > 0
+
+
+def c07_unknown_point_leaks_name():
+    k = _K()
+    k('f::{x*x}')
+    try:
+        k('f:>q')
+    except Exception:
+        pass
+    from klongpy.core import KGSym
+    return KGSym('q') in k._context._context[0]
+
+
 PROBES = {
     "C01/split-near-equal": c01_split, "C01/rotate-matrix-flattens": c01_rotate, "C01/reverse-atom-raises": c01_reverse_atom,
     "C01/format-list-recursion": c01_format_list, "C01/first-of-string-is-string": c01_first_string, "C01/max-nested": c01_max_nested,
@@ -476,6 +624,13 @@ PROBES = {
     "C11/two-character-classes": c11_char_class,
     "C11/r-negative-number": c11_r_negative, "C16/directory-prefix-key-raises": c16_directory_key,
     "C14/cleanup-with-pending-calls": c14_cleanup_with_pending_calls,
+    "C01/match-real-lists-exact": c01_match_real_lists_exact, "C01/floor-integer-beyond-2^53": c01_floor_big_integer,
+    "C03/inner-lambda-parameters-counted-for-outer": c03_inner_lambda_arity, "C03/projection-with-list-argument": c03_projection_list_argument,
+    "C03/function-body-is-a-projection": c03_body_is_projection, "C05/int64-overflow-compiled-bignum": c05_int64_overflow,
+    "C09/wrapper-of-projection-arity": c09_wrapper_of_projection, "C09/arity-ignores-call-arguments": c09_arity_call_argument,
+    "C11/nested-dictionary-literal-unevaluated": c11_nested_dictionary_literal, "C15/timerc-after-raising-callback": c15_timerc_after_raising_callback,
+    "C16/aliased-key-paths": c16_aliased_key_paths, "C20/ws-cannot-encode-numpy-scalar-or-undefined": c20_ws_encode_numpy_scalar,
+    "C07/unknown-point-leaves-a-global": c07_unknown_point_leaks_name,
     "C12/empty-comment-marker-hangs": c12_comment_hang,
     "C13/undefined-identity-through-pickle": c13_undefined_identity,
     "C17/fsync-before-flush": c17_fsync_before_data,
